@@ -31,6 +31,12 @@ ASSUMPTIONS = [
 
 
 MUTANTS = [
+    ("longitude pinned to 0 within a tolerance of the poles",
+     "AegeanTools/regions.py",
+     "        dec = np.pi/2-theta\n\n        if degrees:",
+     "        dec = np.pi/2-theta\n"
+     "        ra[np.isclose(np.abs(dec), np.pi/2, atol=1e-3)] = 0\n\n        if degrees:",
+     "C12-R7"),
     ("order marker OR-ed onto the pixel number", "AegeanTools/regions.py",
      "            pd.extend(map(lambda x: int(4**(d+1) + x), self.pixeldict[d]))",
      "            pd.extend(map(lambda x: int(x) | (1 << (2*d + 2)), self.pixeldict[d]))",
@@ -378,6 +384,35 @@ def run(ctx):
                     floor=None if handmade else 1)
     # ---------------------------------------------------------------- R5
     pickle_rule(ctx, ci, "C12-R5")
+    # ---------------------------------------------------------------- R7
+    ctx.rule("C12-R7", "the polygon vertices written by write_reg are the "
+             "pixel's corners: the vector -> sky conversion it goes through "
+             "(vec2sky, radec2sky) computes coordinates by formula only -- "
+             "no element of the coordinate arrays is overwritten under a "
+             "data-dependent mask (`ra[<test on dec>] = 0` moves every "
+             "corner the test catches, e.g. all corners within a tolerance "
+             "of a pole given in the wrong unit)")
+    n7 = 0
+    for m in ("vec2sky", "radec2sky"):
+        f7 = ci.methods.get(m)
+        if f7 is None:
+            continue
+        n7 += 1
+        bad7 = []
+        for st in walk_no_nested(f7.node):
+            tgts = st.targets if isinstance(st, ast.Assign) else \
+                [st.target] if isinstance(st, ast.AugAssign) else []
+            for t in tgts:
+                if isinstance(t, ast.Subscript) and any(
+                        isinstance(x, (ast.Compare, ast.Call))
+                        for x in ast.walk(t.slice)):
+                    bad7.append(st)
+        ctx.check("C12-R7", f7, "coordinates computed by formula only in " +
+                  m, not bad7, "%s overwrites selected coordinates: the "
+                  "exported polygon no longer has the pixel's corners as "
+                  "vertices" % (norm(bad7[0], 70) if bad7 else ""),
+                  node=bad7[0] if bad7 else f7.node)
+    ctx.floor("C12-R7", n7, 2, "conversion functions behind write_reg")
 
 
 def pickle_rule(ctx, ci, rule):
